@@ -1,7 +1,7 @@
 ------------------------------ MODULE SigTrace ------------------------------
 (* Trace specification for C12 / C13 (and the codec part of C02/C10): one recorded call of    *)
 (* the real library per trace element, decided against SigCodec.tla.                          *)
-(*   op = "enc":    enc in {"string","strings","der"}, canon in BOOLEAN, n, r, s  -> out      *)
+(*   op = "enc":    enc in {"string","strings","der"}, canon in BOOLEAN, n, r, s  -> out = [ok, v] | [ok, exc] *)
 (*   op = "dec":    dec in {"string","strings","der"}, n, inp -> out = [ok, r, s] or [ok, exc]     *)
 (*   op = "n2s":    v, n -> out        (number_to_string)                                     *)
 (*   op = "s2n":    inp -> out         (string_to_number, minimal bytes of the value)         *)
@@ -26,7 +26,7 @@ ExpectDec(e) ==
 (* the set of failed clauses of one event *)
 Bad(e) ==
   CASE e.op = "enc" ->
-         (IF e.out = ExpectEnc(e) THEN {} ELSE {"enc-bytes"})
+         (IF ~e.out.ok THEN {"enc-raised"} ELSE IF e.out.v = ExpectEnc(e) THEN {} ELSE {"enc-bytes"})
          \cup (IF e.canon /\ Lt(e.n, Dbl(Canon(e.s, e.n))) THEN {"spec-canon-not-low"} ELSE {})
     [] e.op = "dec" ->
          LET x == ExpectDec(e)
@@ -34,7 +34,7 @@ Bad(e) ==
              THEN (IF ~e.out.ok /\ e.out.exc = x.exc THEN {} ELSE {"dec-should-reject-with-" \o x.exc})
              ELSE (IF ~e.out.ok THEN {"dec-should-accept"}
                    ELSE IF Strip(e.out.r) = x.r /\ Strip(e.out.s) = x.s THEN {} ELSE {"dec-value"})
-    [] e.op = "n2s" -> IF e.out = NumToStr(e.v, e.n) THEN {} ELSE {"n2s"}
+    [] e.op = "n2s" -> IF ~e.out.ok THEN {"n2s-raised"} ELSE IF e.out.v = NumToStr(e.v, e.n) THEN {} ELSE {"n2s"}
     [] e.op = "s2n" -> IF Strip(e.out) = Strip(e.inp) THEN {} ELSE {"s2n"}
     [] e.op = "s2nf" ->
          IF Len(e.inp) = OrderLen(e.n)
